@@ -17,6 +17,8 @@ inductive EKind where
 inductive FVal where
   | seq (ks : List EKind)
   | scalar                    -- iterating it raises `TypeError`
+  | iter (ks : List EKind)    -- a one-shot iterator (generator, `iter(..)`, `map(..)`): the type check consumes it,
+                              -- what is stored afterwards yields nothing any more
   deriving Repr, DecidableEq, Inhabited
 
 inductive Err where
@@ -53,13 +55,15 @@ def checkField (name : String) (fv : FVal) (isDict : Bool) : Option Err :=
   if isDefField name then
     (match fv with
      | .scalar => some .typeError
-     | .seq ks => if ks.any (· == .other) then some .creation else none)
+     | .seq ks => if ks.any (· == .other) then some .creation else none
+     | .iter ks => if ks.any (· == .other) then some .creation else none)
   else if name == "context" && !isDict then some .creation
   else none
 
 def kindsOf : FVal → List EKind
   | .seq ks => ks
   | .scalar => []
+  | .iter _ => []             -- exhausted by `_check_field_type`
 
 /-- `Policy.__setattr__(name, value)` -/
 def setattr (o : PObj) (name : String) (vid : Nat) (fv : FVal) (isDict : Bool) : Except Err PObj :=
